@@ -563,6 +563,35 @@ fn literal_values() -> Vec<Literal> {
         v.push(Literal::FloatUntyped(*f));
         v.push(Literal::Float64(*f));
     }
+    // values whose shortest spelling needs 15-17 significant digits: a grid over the mantissa in binades from 2^-20 to
+    // 2^80 (plus the largest and smallest normal binade and the subnormals), and thirds / sevenths of small integers
+    for exp in [1u64, 1003, 1013, 1022, 1023, 1024, 1030, 1050, 1075, 1076, 1103, 2046] {
+        for m in 0..40u64 {
+            let mant = m.wrapping_mul(0x0003_9E37_79B9_7F4B) & 0x000F_FFFF_FFFF_FFFF;
+            let x = f64::from_bits((exp << 52) | mant);
+            v.push(Literal::FloatUntyped(x));
+            v.push(Literal::Float64(x));
+        }
+    }
+    for m in 1..40u64 {
+        let x = f64::from_bits(m.wrapping_mul(0x0003_9E37_79B9_7F4B) & 0x000F_FFFF_FFFF_FFFF);
+        v.push(Literal::Float64(x));
+    }
+    for k in 1..60u32 {
+        for x in [k as f64 / 3.0, k as f64 / 7.0, 228.0 + k as f64 / 13.0, (k as f64).sqrt() * 1e-6] {
+            v.push(Literal::FloatUntyped(x));
+            v.push(Literal::Float64(x));
+        }
+        for x in [k as f32 / 3.0, k as f32 / 7.0, (k as f32).sqrt() * 1e-6] {
+            v.push(Literal::Float32(x));
+        }
+    }
+    for exp in [1u32, 103, 117, 126, 127, 128, 140, 150, 151, 190, 254] {
+        for m in 0..24u32 {
+            let x = f32::from_bits((exp << 23) | (m.wrapping_mul(0x0009_E377) & 0x007F_FFFF));
+            v.push(Literal::Float32(x));
+        }
+    }
     let f32s: Vec<f32> = vec![
         0.0, 1.0, 2.0, 0.5, 0.1, 1.5, 3.0, 100.0, 1e7, 1e15, 1e16, 1e20, 1e30, 1e38, 1e-5, 1e-7, 1e-10, 1e-38, 1e-45, f32::MAX, f32::MIN_POSITIVE, f32::EPSILON, 1.0 + f32::EPSILON, 0.0031308, 0.055, 16777216.0, 9223372036854775808.0, f32::INFINITY, 65504.0,
         123456.79,
@@ -844,6 +873,73 @@ fn statement_sources() -> Vec<String> {
         out.push(format!("{}\n", d));
     }
     out.extend(declarator_sources());
+    out.extend(context_sources());
+    out
+}
+
+/// every expression form (by root operator class) in every syntactic position that takes an expression, an initialiser,
+/// an argument, a constant or a template argument: the printer must keep the parentheses each position needs
+fn context_sources() -> Vec<String> {
+    let exprs = [
+        "a", "(a, b)", "(a, b, c)", "a = b", "a = (b, c)", "(a = b, c)", "a ? b : c", "a ? (b, c) : d", "(a ? b : c) ? d : e", "a + b", "a < b", "a > b", "a >> b", "a >= b", "a || b", "a | b", "a & b", "-a", "!a", "a++", "(T)a", "(T)(a, b)",
+        "f(a, b)", "f((a, b), c)", "a[b]", "a[(b, c)]", "a.b", "sizeof(a)", "sizeof(T)", "g<T>(a)", "1", "1.5", "true",
+    ];
+    let contexts = [
+        "void f() { int x = %; }",
+        "void f() { int x = %, y = %; }",
+        "void f() { int x[2] = { %, % }; }",
+        "void f() { S s = { { % }, % }; }",
+        "void f() { const int x = %; }",
+        "void f() { h(%); }",
+        "void f() { h(%, %); }",
+        "void f() { x[%]; }",
+        "void f() { x[%][%]; }",
+        "void f() { return %; }",
+        "void f() { %; }",
+        "void f() { (%); }",
+        "void f() { if (%) a; }",
+        "void f() { if (%) a; else b; }",
+        "void f() { while (%) a; }",
+        "void f() { do a; while (%); }",
+        "void f() { for (%; %; %) a; }",
+        "void f() { for (int i = %; %; %) a; }",
+        "void f() { for (int i = %, j = %; ; ) a; }",
+        "void f() { switch (%) { case 1: break; } }",
+        "void f() { switch (a) { case %: break; } }",
+        "void f() { (T)(%); }",
+        "void f() { sizeof(%); }",
+        "void f() { h<%>(a); }",
+        "void f() { T<%> t; }",
+        "void f() { T<%, %> t; }",
+        "void f() { float x[%]; }",
+        "void f() { float x[%][%]; }",
+        "void f() { x = % ? % : %; }",
+        "void f() { x = %; }",
+        "void f() { x += %; }",
+        "void f() { x = -%; }",
+        "void f() { x = (%).m; }",
+        "void f() { x = (%)[0]; }",
+        "void f() { x = (%)(); }",
+        "void f() { [unroll(%)] for (;;) a; }",
+        "void f() { [[vk::foo(%)]] if (a) b; }",
+        "void f(int p = %) {}",
+        "void f(int p = %, int q = %) {}",
+        "static int g = %;",
+        "static int g = %, k = %;",
+        "static const int g[2] = { %, % };",
+        "enum E { A = % };",
+        "enum E { A = %, B = % };",
+        "struct S { int m[%]; };",
+        "[numthreads(%, 1, 1)] void f() {}",
+        "float g[%];",
+        "template<typename T, int N = %> void f() {}",
+    ];
+    let mut out = Vec::new();
+    for c in contexts {
+        for e in exprs {
+            out.push(format!("{}\n", c.replace('%', e)));
+        }
+    }
     out
 }
 
@@ -907,8 +1003,17 @@ fn double_roundtrip(name: &str, src: &str, acc: &mut Acc) {
                 Ok(t) => t,
                 Err(e) => return Err((tname, text, format!("does not parse: {}", one_line(&e, 200)))),
             };
-            let a = ast_norm::dbg(&t1);
-            let b = ast_norm::dbg(&t2);
+            let mut a = ast_norm::dbg(&t1);
+            let mut b = ast_norm::dbg(&t2);
+            if a != b {
+                // dropping redundant parentheses can turn an expression statement into one the parser must leave
+                // ambiguous (`(a & b);` -> `a & b;`): resolve ambiguity nodes of both trees by the type checker's rule
+                let (mut n1, mut n2) = (t1.clone(), t2.clone());
+                Norm::new(&is_type_name).module(&mut n1);
+                Norm::new(&is_type_name).module(&mut n2);
+                a = ast_norm::dbg(&n1);
+                b = ast_norm::dbg(&n2);
+            }
             if a != b {
                 // first difference
                 let pos = a.bytes().zip(b.bytes()).position(|(x, y)| x != y).unwrap_or(a.len().min(b.len()));
@@ -921,7 +1026,7 @@ fn double_roundtrip(name: &str, src: &str, acc: &mut Acc) {
     });
     match r {
         // node kinds the printer documents as unsupported (the property excludes them)
-        Err(p) if p.message.contains("not supported in formatter") => acc.count("trees_with_node_kinds_the_printer_documents_as_unsupported"),
+        Err(p) if p.message.contains("not supported in formatter") || p.message.contains("not supported for formatting") => acc.count("trees_with_node_kinds_the_printer_documents_as_unsupported"),
         Err(p) => acc.violation(Violation {
             signature: p.signature(),
             detail: format!("{}: print/parse panicked: {}", name, p.message),
